@@ -192,7 +192,7 @@ def inline_option_maps(facts, t):
     from ..terms import rebuild
 
     def f(x):
-        if x[0] == 'call' and (cinfo(x[1])['def'] or '').endswith('option::Option::map') and len(x[2]) == 2 and x[2][1][0] == 'closure':
+        if x[0] == 'call' and (cinfo(x[1])['def'] or '').endswith(('option::Option::map', 'option::Option::and_then')) and len(x[2]) == 2 and x[2][1][0] == 'closure':
             cb = facts.by_uid.get(x[2][1][1])
             if cb is not None:
                 m = {('param', 2): x[2][0]}
